@@ -155,7 +155,7 @@ def check_property(pid, spec, tier):
             results.append(futs[j.name].result() if j.background else run_job(pid, j, tier, h))
     violations, known_hits, inconclusive = [], [], []
     cov_jobs, samples = [], []
-    tot = dict(div0_pruned=0, paths_ok=0, fail=0, abort=0, cut=0, crash=0, pruned=0, solver_calls=0, q_sat=0, q_unsat=0, by_norm=0, asserts=0, unknown=0, solver_s=0.0, forks=0)
+    tot = dict(formatted_symbolic=0, div0_pruned=0, paths_ok=0, fail=0, abort=0, cut=0, crash=0, pruned=0, solver_calls=0, q_sat=0, q_unsat=0, by_norm=0, asserts=0, unknown=0, solver_s=0.0, forks=0)
     axioms = set()
     configs_all = 0
     nrep = 0
@@ -249,7 +249,10 @@ def check_property(pid, spec, tier):
                   configurations=configs_all,
                   solver_queries=tot["solver_calls"], queries_sat=tot["q_sat"], queries_unsat=tot["q_unsat"], decided_by_normal_form=tot["by_norm"],
                   unknown_overapproximated=tot["unknown"], solver_s=round(tot["solver_s"], 2),
-                  paths_dropped_at_exact_division_by_zero=tot["div0_pruned"], paths_cut=tot["cut"], paths_aborted=tot["abort"], paths_pruned_by_assumption=tot["pruned"],
+                  paths_dropped_at_exact_division_by_zero=tot["div0_pruned"],
+                  symbolic_values_that_reached_text_formatting=tot["formatted_symbolic"],
+                  text_formatting_note="doubles handed to iostream/printf formatting are let through and print as nan (messages, warnings and exception texts are not the subject); control flow depending on such text would be outside the claim - the one place in the library that did (aliasParameters comparing constraint descriptions) was repaired in /repo; any other external function receiving a symbolic value ends the path as unsupported (reported inconclusive)",
+                  paths_cut=tot["cut"], paths_aborted=tot["abort"], paths_pruned_by_assumption=tot["pruned"],
                   axioms=sorted(axioms), jobs=cov_jobs, samples=samples or [dict(note="no completed path")],
                   known_findings=[k["what"] for k, _ in known_hits], counterexamples=violations, inconclusive=inconclusive,
                   exhaustive=False),
